@@ -559,8 +559,11 @@ func (o *ObsC10) check(x *Exec, quiescent bool) *vcore.Failure {
 			if !inConfig(x.ConfInForce, ip) {
 				continue
 			}
-			if o.everDropped[ip] && alloc[ip].Key != p.Key {
-				continue // the address was taken away from this pod by the administrator and may serve somebody else now
+			if o.everDropped[ip] {
+				// the address was taken away from under a running pod by the administrator: it may have served somebody else since
+				// (assigned and unassigned for that pod), and the pod-IP sync that re-adopts it for the old holder restores the
+				// record, not the provider's assignment
+				continue
 			}
 			if o.state[ip] != p.Node {
 				return vcore.Failf("c10:not_on_pod_node", "live pod %s is bound to node %s with IP %s but the provider has it on %q", p.Name,
